@@ -25,6 +25,9 @@ def txt (s : String) : String := if s.isEmpty then "-" else s.replace " " "_"
 
 def getDeposit (s : State) (a : Addr) : Option Coins := s.deposits.get a
 def setDeposit (s : State) (a : Addr) (c : Coins) : State := { s with deposits := s.deposits.set a c }
+def deleteDeposit (s : State) (a : Addr) : State := { s with deposits := s.deposits.erase a }
+/-- After a subtraction: an emptied record is deleted, otherwise written back. -/
+def putDeposit (s : State) (a : Addr) (c : Coins) : State := if c.isZero then deleteDeposit s a else setDeposit s a c
 
 /-- `SendCoinsFromAccountToDeposit` with one coin. -/
 def depositAdd (s : State) (frm to : Addr) (c : Coin) : M State := do
@@ -38,7 +41,7 @@ def depositToAccount (s : State) (frm to : Addr) (c : Coin) : M State := do
   let cur ← orReject (getDeposit s frm) "deposit not found"
   require (!(cur.sub c).isAnyNegative) "insufficient deposit"
   let s1 ← sendModuleToAccount s depositAddr to c
-  pure (emit (setDeposit s1 frm (cur.sub c))
+  pure (emit (putDeposit s1 frm (cur.sub c))
     (ev "sentinel.deposit.v1.EventSubtract" [("address", addrTxt .acc frm), ("coins", c.sdkString)]))
 
 /-- `SendCoinsFromDepositToModule` with one coin (the only target is the fee collector). -/
@@ -46,7 +49,7 @@ def depositToModule (s : State) (frm module : Addr) (c : Coin) : M State := do
   let cur ← orReject (getDeposit s frm) "deposit not found"
   require (!(cur.sub c).isAnyNegative) "insufficient deposit"
   let s1 ← sendCoins s depositAddr module c
-  pure (emit (setDeposit s1 frm (cur.sub c))
+  pure (emit (putDeposit s1 frm (cur.sub c))
     (ev "sentinel.deposit.v1.EventSubtract" [("address", addrTxt .acc frm), ("coins", c.sdkString)]))
 
 /-! ### subscription/keeper/alias.go: zero coins short-circuit -/
